@@ -139,11 +139,12 @@ func cmdC07(args []string) {
 	nh := fs.Int("n", 6, "base histories")
 	maxPts := fs.Int("points", 120, "max injection points per base history (0 = all)")
 	prof := fs.String("profile", "C07", "C07 | C18 (iterators and visits on cold trees)")
+	injExist := fs.Bool("inject-exist", false, "also inject faults into Exist (which has no error result: known finding F14)")
 	fs.Parse(args)
 	r := rand.New(rand.NewSource(*seed))
 	p := Profile{Name: "C07", Ops: 36, Set: 30, Del: 10, Get: 8, GetI: 5, Min: 3, Max: 3, Totals: 3, Visit: 6,
 		Flush: 10, Evict: 8, Reopen: 6, Revert: 2, Copy: 2, Snap: 2, SnapClose: 1, Len: 1, MaxColls: 2, Drop: 20, BigVals: false,
-		Iter: 2, SnapRevert: 1, CloseSnapsOnReopen: true}
+		Iter: 2, SnapRevert: 1, CloseSnapsOnReopen: true, Exist: 3}
 	if *prof == "C11" {
 		p.Name = "C07-C11"
 		p.Copy, p.Set, p.Get, p.GetI, p.Revert, p.Iter, p.MaxColls = 12, 40, 2, 2, 1, 0, 3
@@ -203,8 +204,8 @@ func cmdC07(args []string) {
 			w.Exec(l)
 			after := w.fileCalls()
 			kind := opKind(l)
-			if kind == "exist" || kind == "evict" || kind == "image" || kind == "dump" || kind == "crash" {
-				continue // no error channel / harness composite
+			if (kind == "exist" && !*injExist) || kind == "evict" || kind == "image" || kind == "dump" || kind == "crash" {
+				continue // no error result (EvictSomeItems is best effort; Exist: see F14) / harness composite
 			}
 			for fid, a := range after {
 				n := a - before[fid]
